@@ -662,12 +662,13 @@ bool exec_str_b(Ctx &c, const Op &op) {
     }
     case S_TO_BUF: {
         unsigned which = op.b % 6;
-        StrObj *x = which == 0 ? pick(v, op.a) : pick_str_wf(c, op.a);
+        StrObj *x = which == 0 ? pick(v, op.a) : ((op.b >> 8) & 3) == 0 ? pick_str_nohazard(c, op.a) : pick_str_wf(c, op.a);
         if (!x) { c.skipped = true; return true; }
-        note_sig(c, op, std::string("obj=") + cl(x) + ",which=" + std::to_string(which));
+        const bool xwf = strict_utf8(x->model.data(), x->model.size());      // malformed receiver: the result is adopted (what the conversion makes of it is C02/C03's business)
+        note_sig(c, op, std::string("obj=") + cl(x) + ",which=" + std::to_string(which) + ((which && !xwf) ? ",malformed" : ""));
         c.budget_bytes = x->model.size() * 8;
         as_const(x);
-        Scalars sc; if (which) decode_utf8_strict(x->model, sc);
+        Scalars sc; if (which && xwf) decode_utf8_strict(x->model, sc);
         bool lat_ok = true; std::string lat; for (char32_t ch : sc) { if (ch >= 0x100) { lat_ok = false; lat += '?'; } else lat += (char)ch; }
         if (which == 0) probe(c, PR_RESULT_EQUALS_SOURCE);
         void *mem = nullptr;
@@ -676,26 +677,26 @@ bool exec_str_b(Ctx &c, const Op &op) {
         case 0: case 4: case 5: {
             buf_make_room<char>(c); mem = obj_alloc(sizeof(ST::char_buffer));
             ex = run_sut(c, op, [&] { if (which == 0) FRESH(ST::char_buffer, x->p()->to_utf8()); else FRESH(ST::char_buffer, x->p()->to_latin_1(which == 4)); });
-            if (settle(c, op, ex, (which == 5 && !lat_ok) ? bit(EX_UNICODE) : 0)) { auto *o = add_buf<char>(c, mem); o->role = ROLE_NEW; o->parent = x->serial; o->model = which == 0 ? x->model : lat; }
+            if (settle(c, op, ex, ((which == 5 && !lat_ok) || (which && !xwf)) ? bit(EX_UNICODE) : 0)) { auto *o = add_buf<char>(c, mem); o->role = ROLE_NEW; o->parent = x->serial; if (which && !xwf) o->st = M_ADOPT; else o->model = which == 0 ? x->model : lat; }
             else obj_free(mem);
             break;
         }
         case 1: {
             buf_make_room<char16_t>(c); mem = obj_alloc(sizeof(ST::utf16_buffer));
             ex = run_sut(c, op, [&] { FRESH(ST::utf16_buffer, x->p()->to_utf16()); });
-            if (settle(c, op, ex, 0)) { auto *o = add_buf<char16_t>(c, mem); o->role = ROLE_NEW; o->parent = x->serial; enc_utf16(sc, o->model); } else obj_free(mem);
+            if (settle(c, op, ex, xwf ? 0 : bit(EX_UNICODE))) { auto *o = add_buf<char16_t>(c, mem); o->role = ROLE_NEW; o->parent = x->serial; if (xwf) enc_utf16(sc, o->model); else o->st = M_ADOPT; } else obj_free(mem);
             break;
         }
         case 2: {
             buf_make_room<char32_t>(c); mem = obj_alloc(sizeof(ST::utf32_buffer));
             ex = run_sut(c, op, [&] { FRESH(ST::utf32_buffer, x->p()->to_utf32()); });
-            if (settle(c, op, ex, 0)) { auto *o = add_buf<char32_t>(c, mem); o->role = ROLE_NEW; o->parent = x->serial; o->model = sc; } else obj_free(mem);
+            if (settle(c, op, ex, xwf ? 0 : bit(EX_UNICODE))) { auto *o = add_buf<char32_t>(c, mem); o->role = ROLE_NEW; o->parent = x->serial; if (xwf) o->model = sc; else o->st = M_ADOPT; } else obj_free(mem);
             break;
         }
         default: {
             buf_make_room<wchar_t>(c); mem = obj_alloc(sizeof(ST::wchar_buffer));
             ex = run_sut(c, op, [&] { FRESH(ST::wchar_buffer, x->p()->to_wchar()); });
-            if (settle(c, op, ex, 0)) { auto *o = add_buf<wchar_t>(c, mem); o->role = ROLE_NEW; o->parent = x->serial; o->model.assign(sc.begin(), sc.end()); } else obj_free(mem);
+            if (settle(c, op, ex, xwf ? 0 : bit(EX_UNICODE))) { auto *o = add_buf<wchar_t>(c, mem); o->role = ROLE_NEW; o->parent = x->serial; if (xwf) o->model.assign(sc.begin(), sc.end()); else o->st = M_ADOPT; } else obj_free(mem);
             break;
         }
         }
